@@ -7,8 +7,22 @@ NOTE_COMMON = ("Trusted: CrossHair 0.0.110's models of Python int/bytes/str, z3 
                "DESIGN.md section 3 (validated against the builtins at setup). Bounded: see coverage.bounds / outside_claim in the evidence; "
                "partitions that do not exhaust within their budget are listed as incomplete and claim nothing.")
 CHECKS = {
+ "C01": dict(text="For every generated well-formed shape (live tables) with its interval-valued leaves symbolic, and every primitive type, strict decoding succeeds and its events equal the interpretation of an independent reference interpreter over the pinned layout; decided per path for all leaf values.",
+             design="7/C01", note="Reference interpreter oracle/refdec.py (written from the property statements) and the pinned layout snapshot are trusted; shapes are each-choice, not all combinations."),
+ "C02": dict(text="For every byte string within the length bounds and every explored shape: if decoding accepts (strict, or warn with value warnings only) the re-encoded chunks are exactly the input slices; relational, no model.",
+             design="7/C02", note=""),
+ "C03": dict(text="Every size field of every explored shape symbolic over its full width (and nested pairs), every byte string up to N for region-bearing types, and one inductive step of the constraint algebra from an arbitrary pre-state: outcome class, error attributes and emitted events equal the reference semantics.",
+             design="7/C03", note="Unit steps assume the representation invariant stated in harness/c03_unit.py and skip lengths <= 4."),
+ "C04": dict(text="Every primitive type decoded from every value of its width (accept iff in the pinned set; error attributes; allowed set equal to the pinned one, decided on a fresh symbolic member) and every constrained leaf of the explored shapes symbolic over its width in context.",
+             design="7/C04", note=""),
+ "C05": dict(text="Every cut point of the explored shapes and streams, appended symbolic suffixes, and every short byte string per type (including empty): depleted / superfluous with exact events, surplus bytes and command code, per the reference interpreter.",
+             design="7/C05", note=""),
  "C06": dict(text="Every byte string within the stated length bounds, for the listed types / command codes / flags: strict decoding ends in a documented outcome and pulls no more than the input; decided per execution path for all byte values on it.",
              design="7/C06", note="One known finding (AssertionError in process_response for an inconsistent encryption flag) is filtered by call site."),
+ "C07": dict(text="Both modes of the real decoder on the same symbolic input (all byte strings up to N per type; size/value/cut variants of shapes): events before the first warning, the wrapped error's class and details, and accept/no-warning equivalence; relational, no model.",
+             design="7/C07", note="Error details are snapshotted when the warning is observed (the constraint object keeps counting afterwards)."),
+ "C13": dict(text="Every strict-mode constraint error reached from all byte strings up to N per type and from size/value variants of shapes: emitted bytes + consumed offending bytes + remaining bytes = input, prefix/suffix exact; relational.",
+             design="7/C13", note=""),
 }
 NA = {
  "C19": "process-level observable (argv, file descriptors, stdout/stderr, exit status, dpkt-parsed bundled captures): symbolic data cannot cross the process boundary and the in-process remainder is exactly the library calls decided by C01-C15; see DESIGN.md section 9",
